@@ -1,0 +1,41 @@
+//go:build verif
+// +build verif
+
+package api
+
+import "sort"
+
+// VerifRebuildWithWatchData is a verification-only hook (build tag "verif"). It performs an
+// ordinary rebuild of the context with watch-data collection switched on, but without starting
+// the polling goroutine that "Watch()" starts, and returns the result together with a function
+// that evaluates every watch predicate captured by that build (in sorted path order) and returns
+// the paths the predicates report as dirty. This gives a synchronous view of what watch mode would
+// detect, without the polling delay.
+func VerifRebuildWithWatchData(ctx BuildContext) (BuildResult, func() []string) {
+	impl, ok := ctx.(*internalContext)
+	if !ok {
+		return BuildResult{}, func() []string { return nil }
+	}
+
+	impl.mutex.Lock()
+	impl.args.options.WatchMode = true
+	impl.mutex.Unlock()
+
+	state := impl.rebuild()
+	paths := state.watchData.Paths
+
+	return state.result, func() []string {
+		keys := make([]string, 0, len(paths))
+		for key := range paths {
+			keys = append(keys, key)
+		}
+		sort.Strings(keys)
+		var dirty []string
+		for _, key := range keys {
+			if path := paths[key](); path != "" {
+				dirty = append(dirty, path)
+			}
+		}
+		return dirty
+	}
+}
